@@ -40,6 +40,8 @@ fn run_check(id: &str, cfg: &RunCfg) -> Option<Report> {
         "C07" => checks::hist::run(cfg, &checks::hist::C07),
         "C08" => checks::concur::run(cfg, &checks::concur::C08),
         "C09" => checks::c09::run(cfg),
+        "C10" => checks::c10::run(cfg),
+        "C11" => checks::c11::run(cfg),
         "C12" => checks::concur::run(cfg, &checks::concur::C12),
         "C13" => checks::concur::run(cfg, &checks::concur::C13),
         "C14" => checks::concur::run_c14(cfg),
@@ -53,6 +55,7 @@ fn run_check(id: &str, cfg: &RunCfg) -> Option<Report> {
         "C16" => checks::codec::run(cfg, false),
         "C17" => checks::codec::run(cfg, true),
         "C18" => checks::c18::run(cfg),
+        "C19" => checks::c19::run(cfg),
         _ => return None,
     })
 }
@@ -69,6 +72,8 @@ fn replay_check(id: &str, v: &serde_json::Value, cfg: &RunCfg) -> Option<Result<
         "C07" => checks::hist::replay(cfg, &checks::hist::C07, v),
         "C08" => checks::concur::replay(cfg, &checks::concur::C08, v),
         "C09" => checks::c09::replay(v),
+        "C10" => checks::c10::replay(cfg, v),
+        "C11" => checks::c11::replay(cfg, v),
         "C12" => checks::concur::replay(cfg, &checks::concur::C12, v),
         "C13" => checks::concur::replay(cfg, &checks::concur::C13, v),
         "C14" => checks::concur::replay(cfg, &checks::concur::C14L, v),
@@ -82,6 +87,7 @@ fn replay_check(id: &str, v: &serde_json::Value, cfg: &RunCfg) -> Option<Result<
         "C16" => checks::codec::replay(v, false),
         "C17" => checks::codec::replay(v, true),
         "C18" => checks::c18::replay(v),
+        "C19" => checks::c19::replay(cfg, v),
         _ => return None,
     })
 }
@@ -110,6 +116,12 @@ fn main() {
         let v = serde_json::json!({"property": "C13", "engine": "schedule", "case": checks::concur::witness_kf_c13_1()});
         std::fs::write(format!("{dir}/KF-C13-1.json"), serde_json::to_string_pretty(&v).unwrap()).unwrap();
         println!("wrote {dir}/KF-C13-1.json");
+        let v = serde_json::json!({"property": "C19", "engine": "queue_history", "case": checks::c19::witness_kf()});
+        std::fs::write(format!("{dir}/KF-C19-1.json"), serde_json::to_string_pretty(&v).unwrap()).unwrap();
+        println!("wrote {dir}/KF-C19-1.json");
+        let v = serde_json::json!({"property": "C11", "engine": "restore_differential", "case": checks::c11::witness_kf()});
+        std::fs::write(format!("{dir}/KF-C11-1.json"), serde_json::to_string_pretty(&v).unwrap()).unwrap();
+        println!("wrote {dir}/KF-C11-1.json");
         std::process::exit(0);
     }
     if args[2] == "--replay" {
